@@ -181,6 +181,45 @@ extern "C" int accept4(int fd, struct sockaddr* addr, socklen_t* len, int flags)
   return (int)syscall(SYS_accept4, fd, addr, len, flags);
 }
 
+// ---- bind / listen / connect / setsockopt: scripted failures ------------------------------------------------
+static bool ipFailNextBind = false, ipFailNextListen = false, ipFailNextConnect = false, ipFailNextSockopt = false;
+static int ipFailOptFd[16];          // descriptors whose next socket option (not SO_REUSEADDR) cannot be applied
+static int ipNFailOpt = 0;
+static unsigned long ipFaultBind = 0, ipFaultListen = 0, ipFaultConnect = 0, ipFaultSockopt = 0;
+
+extern "C" int bind(int fd, const struct sockaddr* addr, socklen_t len)
+{
+  if(ipFailNextBind) { ipFailNextBind = false; ++ipFaultBind; errno = EADDRINUSE; return -1; }
+  return (int)syscall(SYS_bind, fd, addr, len);
+}
+
+extern "C" int listen(int fd, int backlog)
+{
+  if(ipFailNextListen) { ipFailNextListen = false; ++ipFaultListen; errno = EADDRINUSE; return -1; }
+  return (int)syscall(SYS_listen, fd, backlog);
+}
+
+extern "C" int connect(int fd, const struct sockaddr* addr, socklen_t len)
+{
+  if(ipFailNextConnect) { ipFailNextConnect = false; ++ipFaultConnect; errno = ENETUNREACH; return -1; }
+  return (int)syscall(SYS_connect, fd, addr, len);
+}
+
+extern "C" int setsockopt(int fd, int level, int optname, const void* optval, socklen_t optlen)
+{
+  if(!(level == SOL_SOCKET && optname == SO_REUSEADDR))
+  {
+    if(ipFailNextSockopt) { ipFailNextSockopt = false; ++ipFaultSockopt; errno = ENOPROTOOPT; return -1; }
+    for(int i = 0; i < ipNFailOpt; ++i)
+      if(ipFailOptFd[i] == fd)
+      {
+        ipFailOptFd[i] = ipFailOptFd[--ipNFailOpt];
+        ++ipFaultSockopt; errno = ENOPROTOOPT; return -1;
+      }
+  }
+  return (int)syscall(SYS_setsockopt, fd, level, optname, optval, optlen);
+}
+
 // ---- getsockopt(SO_ERROR): scripted connect failure --------------------------------------------
 static int ipFailConnectFd[16];
 static int ipNFailConnect = 0;
